@@ -16,7 +16,7 @@ for pid, c in sorted(CHECKS.items()):
         "engine": "lean4-proof+correspondence",
         "level_claimed": {"category": "proof", "text": c["text"], "design_ref": c["ref"]},
         "level_note": c["note"],
-        "technique": c["technique"],
+        "technique": c["technique"] + " + purity / instance-ownership assumption of the models regenerated from the source (Gen/State) and compared with the record by theorem",
     })
 m = {
     "version": 1,
